@@ -67,7 +67,17 @@ behavior SubB():
     take _symx_action('s1')
     take _symx_action('s2')
 
+behavior Other():
+    while True:
+        take _symx_action('other')
+
 behavior B():
+    global leaked                     # created at run time only
+    try:
+        leaked = leaked + 1
+    except NameError:
+        leaked = 1
+    _symx_log(('leaked', leaked))
     _symx_fault('behavior-start')
     try:
         take _symx_action('b1')
@@ -91,6 +101,7 @@ scenario Sub():
     compose:
         _symx_fault('sub-compose')
         override ego with bar 20
+        override ego with behavior Other()
         wait
         _symx_fault('sub-compose-after-override')
         wait
@@ -98,7 +109,7 @@ scenario Sub():
 scenario Main():
     setup:
         ego = new Thing at (0, 0), with name 'a0', with allowCollisions True, with behavior B()
-        other = new Thing at (10, 0), with name 'a1', with allowCollisions True
+        other = new Thing at (10, 0), with name 'a1', with allowCollisions True, with behavior B()
         record _symx_fault('record') as rec
         require monitor M()
         terminate when (_symx_fault('terminate-when') and False)
@@ -197,12 +208,18 @@ def setup_fault():
         def int(self, n, lo=None, hi=None):
             return 0
 
+    # baseline = first simulation after a fresh compilation (warm-up runs follow)
+    D.reset(C(), {})
+    FAULT[0] = None
+    del HITS[:]
+    fault_simulator().simulate(scene, maxSteps=3, maxIterations=1, verbosity=0)
+    _STATE["baseline_log"] = list(D.LOG)
     for _ in range(2):
         D.reset(C(), {})
-        FAULT[0] = None
         del HITS[:]
         fault_simulator().simulate(scene, maxSteps=3, maxIterations=1, verbosity=0)
-    _STATE["baseline_log"] = list(D.LOG)
+    if list(D.LOG) != _STATE["baseline_log"]:
+        _STATE["baseline_drift"] = True
     _STATE["baseline_hits"] = list(HITS)
     _STATE["veneer"] = veneer_snapshot()
     _STATE["scene_snap"] = scene_snapshot(scene)
@@ -237,16 +254,19 @@ def h_fault(ctx):
     ssnap = scene_snapshot(scene)
     bad = [(a[0], {p: (a[1][p], b[1][p]) for p in a[1] if a[1][p] != b[1].get(p)}, a[2]) for a, b in zip(ssnap, _STATE["scene_snap"]) if a != b]
     ctx.check("scene-objects-unchanged-and-proxies-disabled", not bad, changed=bad, site=site, kind=kind)
-    # follow-up run behaves like the baseline
-    D.reset(ctx, {})
-    del HITS[:]
-    try:
-        sim2 = fault_simulator().simulate(scene, maxSteps=3, maxIterations=1, verbosity=0)
-        out2 = "completed" if sim2 is not None else "rejected"
-    except Exception as e:
-        out2 = "error:" + type(e).__name__
-    ctx.check("follow-up-simulation-equals-baseline", out2 == "completed" and list(D.LOG) == _STATE["baseline_log"],
-              outcome=out2, site=site, kind=kind, log_len=len(D.LOG), baseline_len=len(_STATE["baseline_log"]))
+    # follow-up runs behave like the baseline: the same scene again, and a newly generated scene
+    for which in ("same-scene", "new-scene"):
+        D.reset(ctx, {})
+        del HITS[:]
+        try:
+            sc2 = scene if which == "same-scene" else _STATE["scenario"].generate(maxIterations=1, verbosity=0)[0]
+            sim2 = fault_simulator().simulate(sc2, maxSteps=3, maxIterations=1, verbosity=0)
+            out2 = "completed" if sim2 is not None else "rejected"
+        except Exception as e:
+            out2 = "error:" + type(e).__name__
+        first = next((i for i, (a, b) in enumerate(zip(D.LOG, _STATE["baseline_log"])) if a != b), min(len(D.LOG), len(_STATE["baseline_log"])))
+        ctx.check(f"follow-up-simulation-equals-baseline[{which}]", out2 == "completed" and list(D.LOG) == _STATE["baseline_log"],
+                  outcome=out2, site=site, kind=kind, first_difference=first, got=D.LOG[first:first + 2], want=_STATE["baseline_log"][first:first + 2])
 
 
 # ------------------------------------------------------------------ (a) overrides
@@ -291,6 +311,69 @@ scenario Main():
         wait
         snap('end')
 """
+
+
+NESTED_PROGRAM = """
+class Thing(Object):
+    foo: 1
+
+def snap(tag):
+    _symx_log((tag, ego.foo))
+
+scenario Inner():
+    compose:
+        if _symx_cond('inner_overrides'):
+            override ego with foo 300
+        while True:
+            snap('inner')
+            wait
+
+scenario Sub():
+    compose:
+        if _symx_cond('sub_overrides'):
+            override ego with foo 10
+        snap('sub')
+        do Inner()
+
+scenario Main():
+    setup:
+        ego = new Thing at (0, 0), with name 'a0', with allowCollisions True
+    compose:
+        do Sub() for 2 steps
+        snap('after-sub')
+        wait
+        snap('end')
+"""
+
+
+def setup_nested():
+    import scenic
+
+    sc = scenic.scenarioFromString(NESTED_PROGRAM, mode2D=True)
+    _STATE["nscene"] = sc.generate(maxIterations=1, verbosity=0)[0]
+
+    class C:
+        def bool(self, n):
+            return True
+
+    for _ in range(2):
+        D.reset(C(), {})
+        try:
+            D.simulator(None).simulate(_STATE["nscene"], maxSteps=6, maxIterations=1, verbosity=0)
+        except Exception:
+            pass
+
+
+def h_nested_override(ctx):
+    scene = _STATE["nscene"]
+    D.reset(ctx, {})
+    sim = D.simulator(None).simulate(scene, maxSteps=6, maxIterations=1, verbosity=0)
+    ctx.check("simulation-completes", sim is not None)
+    snaps = [e[1] for e in D.LOG if isinstance(e[1], tuple) and e[1][0] in ("sub", "inner", "after-sub", "end")]
+    after = [v for t, v in snaps if t in ("after-sub", "end")]
+    ctx.check("parent-scenario-stopped-while-child-overrides-the-same-property: original value restored",
+              after == [1, 1], snapshots=snaps)
+    ctx.check("scene-object-reads-original-value-after-the-simulation", scene.objects[0].foo == 1, got=scene.objects[0].foo)
 
 
 def setup_override():
@@ -343,6 +426,9 @@ def obligations(tier, seed):
         Obligation("override-bookkeeping", h_override, "overrides in nested scenarios guarded by symbolic conditions are all undone",
                    {"override_statements": 4, "scenarios": 3, "which_overrides_happen": "symbolic"}, enc,
                    ["DummySimulation with logging hooks"], opts=dict(total_timeout=300.0), setup=setup_override),
+        Obligation("nested-override-same-property", h_nested_override,
+                   "a scenario stopped (do ... for N steps) while its running child overrides the same property restores the original value",
+                   {"which scenarios override": "symbolic"}, enc, ["DummySimulation with logging hooks"], opts=dict(total_timeout=300.0), setup=setup_nested),
         Obligation("fault-injection", h_fault, "fault at any hooked site, of any kind: state restored, follow-up run equals baseline",
                    {"sites": len(SITES), "kinds": KINDS, "steps": 3}, enc, ["DummySimulation subclass with fault hooks"],
                    opts=dict(total_timeout=600.0, per_path_timeout=60.0), setup=setup_fault),
